@@ -228,6 +228,39 @@ impl Lifter {
     }
 
     fn parallel(&mut self, binds: &[(Pat, Expr)], body: &Expr, scope: &BTreeSet<String>) -> Expr {
+        // destructuring patterns are taken apart first: the value goes to a temporary, the names of the pattern are bound
+        // (one level further in) to accessor expressions over it, so every lifted function has plain parameters
+        if binds.iter().any(|(p, _)| !matches!(p, Pat::Var(_, _))) {
+            let mut outer: Vec<(Pat, Expr)> = vec![];
+            let mut inner: Vec<(Pat, Expr)> = vec![];
+            fn accessors(p: &Pat, x: Expr, out: &mut Vec<(Pat, Expr)>) {
+                match p {
+                    Pat::Nil => {}
+                    Pat::Var(n, t) => out.push((Pat::Var(n.clone(), *t), x)),
+                    Pat::At(n, q) => {
+                        out.push((Pat::Var(n.clone(), Ty::Any), x.clone()));
+                        accessors(q, x, out);
+                    }
+                    Pat::Pair(a, b) => {
+                        accessors(a, Expr::Prim("f", vec![x.clone()]), out);
+                        accessors(b, Expr::Prim("r", vec![x]), out);
+                    }
+                }
+            }
+            for (p, e) in binds.iter() {
+                match p {
+                    Pat::Var(_, _) => outer.push((p.clone(), e.clone())),
+                    _ => {
+                        let tmp = format!("lt_{}", self.ctr);
+                        self.ctr += 1;
+                        outer.push((Pat::Var(tmp.clone(), Ty::Any), e.clone()));
+                        accessors(p, Expr::Var(tmp), &mut inner);
+                    }
+                }
+            }
+            let inner_let = Expr::Let(LetKind::Let, inner, Box::new(body.clone()));
+            return self.parallel(&outer, &inner_let, scope);
+        }
         let vals: Vec<Expr> = binds.iter().map(|(_, e)| self.lift(e, scope)).collect();
         let mut bound = BTreeSet::new();
         for (p, _) in binds {
